@@ -106,6 +106,16 @@ SHAPES = {
     "dict-key-parens-delete": ["assert {'b': 2} == snapshot({('a'): 1, 'b': 2})"],
     "dict-value-parens-only-entry": ["assert {'a': 'xy', 'c': 1} == snapshot({'a': ('x' 'y')})"],
     "list-parens-mixed": ["assert [1, 3] == snapshot([(1), 2, (3)])"],
+    # snapshot() evaluated where no source node can be found (code from a string): nothing can be rewritten, the session must still finish
+    "nosrc-eq-ok": ["s = eval('snapshot(5)')", "assert 5 == s"],
+    "nosrc-eq-fix": ["s = eval('snapshot(5)')", "assert 6 == s"],
+    "nosrc-eq-list": ["s = eval('snapshot([1, 2])')", "assert [1, 3, 4] == s"],
+    "nosrc-empty": ["s = eval('snapshot()')", "assert 5 == s"],
+    "nosrc-le": ["s = eval('snapshot(5)')", "assert 3 <= s", "assert 7 <= s"],
+    "nosrc-in": ["s = eval('snapshot([1])')", "assert 2 in s"],
+    "nosrc-sub": ["s = eval(\"snapshot({'a': 1, 'z': 0})\")", "assert s['b'] == 2", "assert s['a'] == 3"],
+    "nosrc-never": ["s = eval('snapshot([1 + 1])')"],
+    "nosrc-exec-function": ["ns = {'snapshot': snapshot}", "exec('def f(x):\\n    return x == snapshot(1)', ns)", "assert ns['f'](1)", "assert ns['f'](2)"],
     # externals (storage is touched in the finish phase)
     "outsource-create": ["assert outsource('data-x') == snapshot()"],
     "outsource-create-and-trim": ["assert outsource('data-y') == snapshot()", "assert 5 in snapshot([5, 6])"],
